@@ -190,8 +190,20 @@ def replay_dynamic(prop, path):
     return 0
 
 
+def replay_file(prop, path):
+    print("replay artefact for %s: %s" % (prop, path))
+    print(open(path).read()[:4000])
+    return 0
+
+
+from harness import checks_fmt   # noqa: E402
+
 CHECKS = {p: check_dynamic for p in DYNAMIC_PROPS}
 REPLAYS = {p: replay_dynamic for p in DYNAMIC_PROPS}
+CHECKS["C17"] = checks_fmt.check_c17
+CHECKS["C18"] = checks_fmt.check_c18
+REPLAYS["C17"] = checks_fmt.replay_doc
+REPLAYS["C18"] = checks_fmt.replay_doc
 
 
 def main():
